@@ -151,6 +151,10 @@ func (i *Interp) indexCheck(fr *frame, idx value, n int) int {
 		return int(x)
 	case *Term:
 		w := x.sort.Width()
+		if w < 64 && uint64(n) >= uint64(1)<<uint(w) {
+			// every value of the narrow index type is in range
+			return int(i.choose(x))
+		}
 		in := i.tt.BVCmp("bvult", x, i.tt.BV(w, uint64(n)))
 		if n == 0 || !i.branch(in) {
 			i.runtimePanic(fr, "index out of range [symbolic] with length %d", n)
@@ -869,6 +873,9 @@ func (i *Interp) unop(fr *frame, instr *ssa.UnOp, x value) value {
 			return i.tt.FPUn("fp.neg", x)
 		}
 	case token.MUL:
+		if ref, ok := x.(*symref); ok {
+			return ref.v
+		}
 		p := x.(*value)
 		if p == nil {
 			i.runtimePanic(fr, "invalid memory address or nil pointer dereference")
